@@ -221,8 +221,9 @@ impl<T> Receiver<T> {
 
     fn recv_max_until(&self, timeout: Duration) -> Result<T, RecvTimeoutError> {
         let deadline = Instant::now() + timeout;
+        let mut remaining = timeout;
         loop {
-            match self.inner.recv(Some(timeout)) {
+            match self.inner.recv(Some(remaining)) {
                 Ok(t) => return Ok(t),
                 Err(TryRecvError::Empty) => {}
                 Err(TryRecvError::Disconnected) => return Err(RecvTimeoutError::Disconnected),
@@ -230,9 +231,12 @@ impl<T> Receiver<T> {
 
             // If we're already passed the deadline, and we're here without
             // data, return a timeout, else try again.
-            if Instant::now() >= deadline {
+            let now = Instant::now();
+            if now >= deadline {
                 return Err(RecvTimeoutError::Timeout);
             }
+            // wait only for what is left of the timeout
+            remaining = deadline.saturating_duration_since(now);
         }
     }
 
